@@ -13,6 +13,10 @@ claimed = {
  'C10': ('fault_enumeration', 'DESIGN.md §4 C10', 'For each generated short history a fault-free pilot counts the calls through every simulated seam; then every single fault point (call, seam, k) is executed: k-th drive write (also as short write), drive read, drive seek, drive stat/open system calls (through the overlay hooks, so the real TapeManager error paths run), k-th index-store call, write-cache factory/read/write/seek/size/truncate; each faulted run ends with probe calls. The scheduler\'s lock table gives exact hang detection; panics in any goroutine are caught as process crashes. Exhaustive per history (sampled down above 250/1500 points), sampled over histories; thorough adds fault pairs.', 'Index faults fail before touching the DB; drive Close errors not injected; nothing is required about what a faulted call returns.', 'deterministic simulation with exhaustive single-fault enumeration per history'),
  'C12': ('exploration', 'DESIGN.md §4 C12', 'Generated trees over adversarial alphabets (_ % . space multi-byte quotes, prefix-related siblings) followed by 1-3 RemoveAll/Rename calls on chosen directories (into itself, onto existing directories, sibling and formerly used names); RefFS equality of the whole tree after every call and after a rebuild from the tape.', 'RefFS as C02.', 'deterministic simulation, refinement against RefFS + rebuild restart'),
  'C14': ('exploration', 'DESIGN.md §4 C14', 'Generated handle programs (Read/ReadAt/Seek with all whences and negative..beyond-end offsets/Write/WriteAt/WriteString/Truncate/Sync/Stat, 1-30 calls) on files of 0..several records for every OpenFile flag set, both write caches and a pipeline swarm; every count, offset, byte and EOF is compared with a byte-array reference handle; after Close the entry is stat-ed and read back. The restore goroutine behind read mode is a scheduled task with seeded preemption at the drive seam, which is how the schedule-dependent reader-reuse defect (F23) was found.', 'Cursor after ReadAt/WriteAt, WriteAt on O_APPEND handles and the cursor after an empty write on O_APPEND are unspecified (os.File and in-memory files disagree) and masked.', 'deterministic simulation, refinement against byte-array reference handle, seeded scheduling of the restore goroutine'),
+ 'C04': ('exploration', 'DESIGN.md §4 C04', 'Invariant monitor after every call of seeded histories biased to batched Operations.Archive calls (k=1..6 members), content/metadata updates, moves and deletes at small record sizes: raw index rows (second SQL view, tombstones included) x independent tar scan of the drive x recovery.Query x recovery.Fetch; every live position must be a record start carrying one of the entry\'s names, block < record size, last-known >= position, Fetch there = the model\'s current content, Query positions = scan offsets, index last-written = last record. Reach probes count records spanning record boundaries and starting at the last block.', 'Expected contents come from RefFS; KF1 name exclusion applies; regular-file drive.', 'deterministic simulation with position invariant monitor (index rows x tape scan x Fetch/Query)'),
+ 'C06': ('fault_enumeration', 'DESIGN.md §4 C06', 'Crash-point enumeration: the simulated drive records every write of a generated history; every boundary between two writes, every record/header/content boundary +-2 bytes and sampled interior offsets (thorough: every byte of the last records) is taken as the surviving tape; the index is rebuilt over each prefix in a fresh instance (must terminate, no panic) and the observed tree and contents are compared with the rebuild of the tape cut back to the last complete record: only the torn record\'s own entry may differ and reading it must fail or return its old content.', 'Crash = byte prefix of the issued writes (append-only tape, never synced); reference state tied to the live state by C01.', 'deterministic simulation with crash-point enumeration over the recorded drive write stream'),
+ 'C07': ('fault_enumeration', 'DESIGN.md §4 C07', 'Duplicate delivery of the log: for every call boundary j of generated histories (moves, delete-then-recreate, renames onto used names) the index of the tape prefix at j is built, then the whole tape is re-indexed into it without wiping, twice; both passes must return nil and the observed state after pass 1, pass 2 and a from-scratch rebuild must agree. Exhaustive over j per history.', 'Prefix indexes are rebuilds of the tape cut at call boundaries.', 'deterministic simulation: replay of the tape into every prefix index, twice'),
+ 'C16': ('fault_enumeration', 'DESIGN.md §4 C16', 'Restart enumeration: tapes of generated histories, intact or cut at enumerated crash points (call/record boundaries, inside headers, inside content), combined with an absent, current or stale (snapshot at an earlier call boundary) index; a fresh instance is constructed and initialised over copies; judged: old tape is a prefix of the new, nothing appended when a root record exists, observed state = from-scratch rebuild of that tape, and files/directories written afterwards read back and survive a rebuild. Three open known findings (KF2 torn content, KF3 stale index, KF4 torn/unaligned tail) restrict what is judged in exactly those sub-spaces while their replays still fail.', 'Index snapshots are file copies at call boundaries; an index ahead of the tape is not modelled.', 'deterministic simulation: enumeration of (tape crash point x index state) restarts'),
 }
 checks = []
 for i in ids:
